@@ -8,13 +8,19 @@
 //!                                                  as a token id (otherwise as a string);
 //!                                                  `%` (numeric keys only) = written as an I32 token
 //!   key         = [a-z0-9_]+
-//!   val         = int | `[` int (`.` int)* `]` | `[]` | `{` inner (`;` inner)* `}` | `{}`
-//!   inner       = key `=` (int | `[`…`]`)
+//!   val         = int | `i64:`n | `u32:`n | `u64:`n | `f32:`<8 hex> | `f64:`<16 hex> | `b:`<byte>
+//!               | `q:`<hex> | `uq:`<hex> | `rgb:`r`/`g`/`b[`/`a]
+//!               | `[` val (`.` val)* `]` | `[]` | `{` inner (`;` inner)* `}` | `{}`     (nest freely)
+//!   inner       = key `=` val
+//!   (int = I32 token; i64/u32/u64/f32/f64/b/q/uq/rgb = the binary token kind with that raw payload;
+//!   in text: decimal numbers, a fixed decimal for floats, yes/no, a quoted string with control
+//!   bytes replaced, `x<hex>` for an unquoted string, `rgb { r g b }`)
 //! The harness renders the pairs as TEXT (`k=v k={ 1 2 } k={ a=1 b=2 }`) and as BINARY
 //! (keys as ids from `NAMES` or Quoted strings, ints as I32) and runs every deserializer path:
 //!   text:   from_windows1252_slice, from_utf8_slice, TextDeserializer::from_windows1252_tape,
 //!           from_windows1252_reader, from_utf8_reader
 //!   binary: deserialize_slice (on-demand), deserialize_tape, deserialize_reader (streaming)
+//!   the reader paths also with small buffers (text 32/48/64 bytes, binary 16/24/64 bytes)
 //! Result line: `T:<res> B:<res>` where <res> = canonical struct value `a=1;b=none;e=[1.2]` or
 //! `err:duplicate:<field>` / `err:missing:<field>` / `err:invalidtype` / `err:other`.
 //!
@@ -203,7 +209,20 @@ impl Show for With {
 #[derive(Clone, Debug, PartialEq)]
 enum Val {
     Int(i32),
-    Arr(Vec<i32>),
+    I64(i64),
+    U32(u32),
+    U64(u64),
+    /// raw little-endian payload of an F32 / F64 token
+    F32([u8; 4]),
+    F64([u8; 8]),
+    /// raw payload byte of a Bool token
+    Bool(u8),
+    /// Quoted / Unquoted string token, raw bytes
+    Q(Vec<u8>),
+    Uq(Vec<u8>),
+    /// rgb block, 3 or 4 channels
+    Rgb(Vec<u32>),
+    Arr(Vec<Val>),
     Obj(Vec<(String, Val)>),
 }
 #[derive(Clone, Debug, PartialEq)]
@@ -214,13 +233,32 @@ struct Item {
     val: Val,
 }
 
+/// split at `sep` outside of brackets
+fn split_top(s: &str, sep: char) -> Vec<&str> {
+    let mut out = vec![];
+    let (mut depth, mut start) = (0i32, 0usize);
+    for (i, c) in s.char_indices() {
+        match c {
+            '[' | '{' => depth += 1,
+            ']' | '}' => depth -= 1,
+            c if c == sep && depth == 0 => {
+                out.push(&s[start..i]);
+                start = i + 1;
+            }
+            _ => {}
+        }
+    }
+    out.push(&s[start..]);
+    out
+}
+
 fn parse_val(s: &str) -> Option<Val> {
     if let Some(body) = s.strip_prefix('[') {
         let body = body.strip_suffix(']')?;
         if body.is_empty() {
             return Some(Val::Arr(vec![]));
         }
-        return Some(Val::Arr(body.split('.').map(|x| x.parse().ok()).collect::<Option<Vec<i32>>>()?));
+        return Some(Val::Arr(split_top(body, '.').into_iter().map(parse_val).collect::<Option<Vec<Val>>>()?));
     }
     if let Some(body) = s.strip_prefix('{') {
         let body = body.strip_suffix('}')?;
@@ -228,11 +266,31 @@ fn parse_val(s: &str) -> Option<Val> {
             return Some(Val::Obj(vec![]));
         }
         let mut out = vec![];
-        for it in body.split(';') {
+        for it in split_top(body, ';') {
             let (k, v) = it.split_once('=')?;
             out.push((k.to_string(), parse_val(v)?));
         }
         return Some(Val::Obj(out));
+    }
+    if let Some((tag, body)) = s.split_once(':') {
+        return Some(match tag {
+            "i64" => Val::I64(body.parse().ok()?),
+            "u32" => Val::U32(body.parse().ok()?),
+            "u64" => Val::U64(body.parse().ok()?),
+            "f32" => Val::F32(unhex(body)?.try_into().ok()?),
+            "f64" => Val::F64(unhex(body)?.try_into().ok()?),
+            "b" => Val::Bool(body.parse().ok()?),
+            "q" => Val::Q(unhex(body)?),
+            "uq" => Val::Uq(unhex(body)?),
+            "rgb" => {
+                let c = body.split('/').map(|x| x.parse().ok()).collect::<Option<Vec<u32>>>()?;
+                if c.len() != 3 && c.len() != 4 {
+                    return None;
+                }
+                Val::Rgb(c)
+            }
+            _ => return None,
+        });
     }
     s.parse().ok().map(Val::Int)
 }
@@ -263,7 +321,16 @@ fn parse_pairs(s: &str) -> Option<Vec<Item>> {
 fn show_val(v: &Val) -> String {
     match v {
         Val::Int(i) => i.to_string(),
-        Val::Arr(a) => format!("[{}]", a.iter().map(|x| x.to_string()).collect::<Vec<_>>().join(".")),
+        Val::I64(i) => format!("i64:{}", i),
+        Val::U32(i) => format!("u32:{}", i),
+        Val::U64(i) => format!("u64:{}", i),
+        Val::F32(b) => format!("f32:{}", hex(b)),
+        Val::F64(b) => format!("f64:{}", hex(b)),
+        Val::Bool(b) => format!("b:{}", b),
+        Val::Q(b) => format!("q:{}", hex(b)),
+        Val::Uq(b) => format!("uq:{}", hex(b)),
+        Val::Rgb(c) => format!("rgb:{}", c.iter().map(|x| x.to_string()).collect::<Vec<_>>().join("/")),
+        Val::Arr(a) => format!("[{}]", a.iter().map(show_val).collect::<Vec<_>>().join(".")),
         Val::Obj(o) => format!("{{{}}}", o.iter().map(|(k, v)| format!("{}={}", k, show_val(v))).collect::<Vec<_>>().join(";")),
     }
 }
@@ -274,13 +341,48 @@ fn show_pairs(p: &[Item]) -> String {
     p.iter().map(|i| format!("{}{}={}", if i.as_id { "#" } else if i.as_i32 { "%" } else { "" }, i.key, show_val(&i.val))).collect::<Vec<_>>().join(",")
 }
 
+/// TEXT rendering.  Numbers in decimal, F32/F64 as a fixed decimal, Bool yes/no, a Quoted string
+/// between quotes with `"` and `\` escaped and control bytes replaced by `_` (so `{ } # =` and
+/// escapes stay inside the string), an Unquoted string as the scalar `x<hex>`, rgb as a header.
 fn text_val(v: &Val, out: &mut Vec<u8>) {
     match v {
         Val::Int(i) => out.extend_from_slice(i.to_string().as_bytes()),
+        Val::I64(i) => out.extend_from_slice(i.to_string().as_bytes()),
+        Val::U32(i) => out.extend_from_slice(i.to_string().as_bytes()),
+        Val::U64(i) => out.extend_from_slice(i.to_string().as_bytes()),
+        Val::F32(_) => out.extend_from_slice(b"1.500"),
+        Val::F64(_) => out.extend_from_slice(b"2.25000"),
+        Val::Bool(b) => out.extend_from_slice(if *b != 0 { b"yes" } else { b"no" }),
+        Val::Q(b) => {
+            out.push(b'"');
+            for &c in b {
+                match c {
+                    b'"' | b'\\' => {
+                        out.push(b'\\');
+                        out.push(c);
+                    }
+                    0..=0x1f => out.push(b'_'),
+                    _ => out.push(c),
+                }
+            }
+            out.push(b'"');
+        }
+        Val::Uq(b) => {
+            out.push(b'x');
+            out.extend_from_slice(hex(b).replace('-', "").as_bytes());
+        }
+        Val::Rgb(c) => {
+            out.extend_from_slice(b"rgb { ");
+            for x in c {
+                out.extend_from_slice(x.to_string().as_bytes());
+                out.push(b' ');
+            }
+            out.push(b'}');
+        }
         Val::Arr(a) => {
             out.extend_from_slice(b"{ ");
             for x in a {
-                out.extend_from_slice(x.to_string().as_bytes());
+                text_val(x, out);
                 out.push(b' ');
             }
             out.push(b'}');
@@ -335,11 +437,48 @@ fn bin_val(v: &Val, out: &mut Vec<u8>) {
             w16(out, 0x000c);
             out.extend_from_slice(&i.to_le_bytes());
         }
+        Val::I64(i) => {
+            w16(out, 0x0317);
+            out.extend_from_slice(&i.to_le_bytes());
+        }
+        Val::U32(i) => {
+            w16(out, 0x0014);
+            out.extend_from_slice(&i.to_le_bytes());
+        }
+        Val::U64(i) => {
+            w16(out, 0x029c);
+            out.extend_from_slice(&i.to_le_bytes());
+        }
+        Val::F32(b) => {
+            w16(out, 0x000d);
+            out.extend_from_slice(b);
+        }
+        Val::F64(b) => {
+            w16(out, 0x0167);
+            out.extend_from_slice(b);
+        }
+        Val::Bool(b) => {
+            w16(out, 0x000e);
+            out.push(*b);
+        }
+        Val::Q(b) | Val::Uq(b) => {
+            w16(out, if matches!(v, Val::Q(_)) { 0x000f } else { 0x0017 });
+            w16(out, b.len() as u16);
+            out.extend_from_slice(b);
+        }
+        Val::Rgb(c) => {
+            w16(out, 0x0243);
+            w16(out, 0x0003);
+            for x in c {
+                w16(out, 0x0014);
+                out.extend_from_slice(&x.to_le_bytes());
+            }
+            w16(out, 0x0004);
+        }
         Val::Arr(a) => {
             w16(out, 0x0003);
             for x in a {
-                w16(out, 0x000c);
-                out.extend_from_slice(&x.to_le_bytes());
+                bin_val(x, out);
             }
             w16(out, 0x0004);
         }
@@ -398,6 +537,14 @@ fn run_text<T: Show + serde::de::DeserializeOwned>(text: &[u8], case: &str, obs:
     ));
     rs.push(("windows1252_reader", res(jomini::text::de::from_windows1252_reader::<T, _>(text))));
     rs.push(("utf8_reader", res(jomini::text::de::from_utf8_reader::<T, _>(text))));
+    for (name, n) in [("windows1252_reader/buf32", 32usize), ("windows1252_reader/buf64", 64)] {
+        let reader = jomini::text::TokenReader::builder().buffer_len(n).build(text);
+        rs.push((name, res(TextDeserializer::from_windows1252_reader(reader).deserialize::<T>())));
+    }
+    {
+        let reader = jomini::text::TokenReader::builder().buffer_len(48).build(text);
+        rs.push(("utf8_reader/buf48", res(TextDeserializer::from_utf8_reader(reader).deserialize::<T>())));
+    }
     for (n, r) in &rs[1..] {
         if *r != rs[0].1 {
             obs.violation("text-paths-differ", case, &format!("{} = {} but {} = {}", rs[0].0, rs[0].1, n, r));
@@ -419,6 +566,11 @@ fn run_bin<T: Show + serde::de::DeserializeOwned>(bin: &[u8], case: &str, obs: &
         },
     ));
     rs.push(("reader", res(BinaryDeserializer::builder_flavor(Flavor).deserialize_reader::<_, T, _>(bin, &resolver))));
+    for (name, n) in [("reader/buf16", 16usize), ("reader/buf24", 24), ("reader/buf64", 64)] {
+        let mut b = BinaryDeserializer::builder_flavor(Flavor);
+        b.reader_config(jomini::binary::TokenReader::builder().buffer_len(n));
+        rs.push((name, res(b.deserialize_reader::<_, T, _>(bin, &resolver))));
+    }
     for (n, r) in &rs[1..] {
         if *r != rs[0].1 {
             obs.violation("binary-paths-differ", case, &format!("{} = {} but {} = {}", rs[0].0, rs[0].1, n, r));
@@ -632,8 +784,8 @@ fn unknown_item(rng: &mut Rng, numeric_ok: bool, n: i32) -> Item {
     };
     let val = match rng.below(6) {
         0 | 1 => Val::Int(n),
-        2 => Val::Arr((0..rng.below(4)).map(|i| n + i as i32).collect()),
-        3 => Val::Obj(vec![("a".into(), Val::Int(n)), ("a".into(), Val::Int(n + 1)), ("e".into(), Val::Arr(vec![1, 2]))]),
+        2 => Val::Arr((0..rng.below(4)).map(|i| Val::Int(n + i as i32)).collect()),
+        3 => Val::Obj(vec![("a".into(), Val::Int(n)), ("a".into(), Val::Int(n + 1)), ("e".into(), Val::Arr(vec![Val::Int(1), Val::Int(2)]))]),
         4 => Val::Obj(vec![]),
         _ => Val::Obj(vec![("zz".into(), Val::Int(n))]),
     };
@@ -811,6 +963,36 @@ pub fn gen(g: &mut Gen) {
         emit(g, "tok", &p);
     }
     g.count("known-finding-shapes");
+    // 3c. unknown fields whose values are nested containers full of payloads that look like
+    // structural lexemes (binary) / of strings full of structural characters (text), before,
+    // between and after the known fields: skipping them must leave the known fields intact
+    {
+        let n_random = g.budget(2_500, 40_000);
+        let payloads = adversarial_scalars();
+        let mut count = 0usize;
+        for (pi, pv) in payloads.iter().enumerate() {
+            for shape in 0..4 {
+                let val = match shape {
+                    0 => Val::Obj(vec![("k1".into(), pv.clone())]),
+                    1 => Val::Arr(vec![pv.clone(), pv.clone()]),
+                    2 => Val::Arr(vec![Val::Obj(vec![("a".into(), pv.clone())]), Val::Obj(vec![("zz".into(), Val::Arr(vec![pv.clone()]))])]),
+                    _ => Val::Obj(vec![("a".into(), Val::Obj(vec![("e".into(), Val::Arr(vec![pv.clone(), Val::Int(1)])), ("b".into(), pv.clone())])), ("f".into(), Val::Int(3))]),
+                };
+                let id = ["basic", "aliased", "tok", "nested", "with"][(pi + shape) % 5];
+                let pos = (pi + shape) % 3; // before / between / after
+                emit_with_unknown(g, id, &[(pos, val)]);
+                count += 1;
+            }
+        }
+        for _ in 0..n_random {
+            let id = *g.rng.pick(&["basic", "aliased", "tok", "nested", "with"]);
+            let k = 1 + g.rng.below(3);
+            let ins: Vec<(usize, Val)> = (0..k).map(|_| (g.rng.below(3), adversarial_container(&mut g.rng, &payloads, 0))).collect();
+            emit_with_unknown(g, id, &ins);
+            count += 1;
+        }
+        g.count(&format!("adversarial-unknown-values:{}", count));
+    }
     // 4. probes
     for s in [
         "derive tok a=1,bee=2,123=5",
@@ -831,6 +1013,101 @@ pub fn gen(g: &mut Gen) {
     ] {
         g.emit(s.to_string());
     }
+}
+
+/// 16-bit limbs that are structural / type lexemes of the binary format
+const LIMBS: [u16; 11] = [0x0001, 0x0003, 0x0004, 0x000c, 0x000e, 0x000f, 0x0014, 0x0017, 0x0243, 0x0317, 0x029c];
+
+/// every payload-carrying token kind with every limb at every limb position, plus strings that
+/// contain `03 00` / `04 00` (and whose length field is itself a lexeme id) and, for text,
+/// strings full of `{ } " \ # =`
+fn adversarial_scalars() -> Vec<Val> {
+    let mut out = vec![];
+    for &l in &LIMBS {
+        for pos in 0..4 {
+            let v = (l as u64) << (16 * pos);
+            out.push(Val::I64(v as i64));
+            out.push(Val::U64(v));
+            out.push(Val::F64(v.to_le_bytes()));
+        }
+        for pos in 0..2 {
+            let v = (l as u32) << (16 * pos);
+            out.push(Val::Int(v as i32));
+            out.push(Val::U32(v));
+            out.push(Val::F32(v.to_le_bytes()));
+        }
+        out.push(Val::Rgb(vec![l as u32, (l as u32) << 16, 7]));
+        // all four limbs structural
+        let all = (l as u64) * 0x0001_0001_0001_0001;
+        out.push(Val::I64(all as i64));
+        out.push(Val::U64(all ^ 0x0004_0003_0004_0003));
+    }
+    out.push(Val::I64(0x0003_0004));
+    out.push(Val::I64(0x0004_0004_0004_0004));
+    out.push(Val::I64(-1));
+    out.push(Val::I64(5_000_000_000));
+    out.push(Val::Rgb(vec![3, 4, 0x0004_0003, 0x0003_0004]));
+    for b in [0u8, 1, 3, 4] {
+        out.push(Val::Bool(b));
+    }
+    let strs: [&[u8]; 10] = [
+        b"\x03\x00", b"\x04\x00", b"\x03\x00\x04\x00", b"a\x04\x00\x04\x00b", b"\x00\x03\x00", b"abc", b"abcd",
+        b"{}\"\\#=", b"} = { # \"x\\", b"twelve chars",
+    ];
+    for st in strs {
+        out.push(Val::Q(st.to_vec()));
+        out.push(Val::Uq(st.to_vec()));
+    }
+    out
+}
+
+fn adversarial_container(rng: &mut Rng, payloads: &[Val], depth: usize) -> Val {
+    let n = 1 + rng.below(4);
+    let leaf = |rng: &mut Rng| rng.pick(payloads).clone();
+    if rng.chance(1, 2) {
+        Val::Arr((0..n).map(|_| if depth < 2 && rng.chance(1, 3) { adversarial_container(rng, payloads, depth + 1) } else { leaf(rng) }).collect())
+    } else {
+        Val::Obj(
+            (0..n)
+                .map(|_| {
+                    let k = rng.pick(&["a", "e", "f", "zz", "k1", "inner", "x"]).to_string();
+                    (k, if depth < 2 && rng.chance(1, 3) { adversarial_container(rng, payloads, depth + 1) } else { leaf(rng) })
+                })
+                .collect(),
+        )
+    }
+}
+
+/// a successful document for `id` (every required field once, duplicated / take_last fields
+/// several times) with unknown fields inserted before (0), between (1) or after (2) the known ones
+fn emit_with_unknown(g: &mut Gen, id: &str, ins: &[(usize, Val)]) {
+    let keys: &[&str] = match id {
+        "basic" => &["a", "e", "f", "b", "e", "f"],
+        "aliased" => &["x", "core", "l", "core", "g"],
+        "tok" => &["a", "e", "bee", "f", "e"],
+        "nested" => &["inner", "inners", "x", "inners"],
+        _ => &["a", "f", "e", "e", "f"],
+    };
+    let mut p: Vec<Item> = vec![];
+    for (n, k) in keys.iter().enumerate() {
+        let val = if id == "nested" && *k != "x" {
+            Val::Obj(vec![("u".into(), Val::Int(n as i32 + 1)), ("v".into(), Val::Int(20 + n as i32))])
+        } else {
+            Val::Int(n as i32 + 1)
+        };
+        p.push(Item { as_i32: false, as_id: g.rng.chance(1, 3) && *k != "bee", key: k.to_string(), val });
+    }
+    let known = p.len();
+    for (j, (pos, v)) in ins.iter().enumerate() {
+        let at = match pos {
+            0 => 0,
+            1 => 1 + g.rng.below(known - 1) + j.min(1) * 0,
+            _ => p.len(),
+        };
+        let key = *g.rng.pick(&["zz", "yy", "k1", "k2", "u2"]);
+        p.insert(at.min(p.len()), Item { as_i32: false, as_id: g.rng.chance(1, 3), key: key.to_string(), val: v.clone() });
+    }
+    emit(g, id, &p);
 }
 
 pub fn tables() -> String {
